@@ -726,8 +726,8 @@ def attribute(kind, exc, doc, src, diag, shapes, bad_keys, nfkc_keys, offending=
             return 'gs-key-not-identifier'
         cls_name, fld = getattr(exc, 'class_name', None), getattr(exc, 'field_name', None)
         if 'not in any of Union types' in msg and cls_name and fld:
-            if getattr(exc, 'obj', 0) is None and 'null-in-later-list' in shapes:
-                return 'gs-null-list-element-merge'
+            if getattr(exc, 'obj', 0) is None and 'null-in-later-list' in shapes and not has_union_with_list(src):
+                return 'gs-null-list-element-merge'         # (repaired by c45a418: reported if it returns)
             tree, class_names = field_annotation(src, cls_name, fld)
             for members in union_nodes(tree, []):
                 if any(m[0] == 'ref' or (m[0] == 'name' and m[1] in class_names) for m in members):
@@ -741,11 +741,12 @@ def attribute(kind, exc, doc, src, diag, shapes, bad_keys, nfkc_keys, offending=
             return None
         if 'numeric-not-int' in shapes and 'invalid literal for int()' in msg:
             return 'gs-force-strings-isnumeric'
-        if 'null-in-later-list' in shapes and (name == 'MissingData' or 'NoneType' in msg or 'value=None' in msg):
-            return 'gs-null-list-element-merge'
         if shapes & LISTY and has_union_with_list(src) and \
                 name in ('ParseError', 'ValueError', 'TypeError', 'AttributeError', 'MissingData'):
+            # (since repair c45a418 List[T] and List[Optional[T]] are different members of such a Union)
             return 'gs-union-with-list'
+        if 'null-in-later-list' in shapes and (name == 'MissingData' or 'NoneType' in msg or 'value=None' in msg):
+            return 'gs-null-list-element-merge'         # (repaired by c45a418: reported if it returns)
     return None
 
 
